@@ -59,8 +59,12 @@ Proof. intros [H _] Ht. auto. Qed.
 
 (* ================================================================== the fragment *)
 (* array values.  The canonical form the constructor Array() and the model guarantee: the
-   index sort is not an array sort and not Real (a Real index would need Real constants in
-   lowest terms, which [okt] does not ask), the indices are constants of Bool / Int / BV / String
+   index sort is not an array sort, not Real (a Real index would need Real constants in
+   lowest terms, which [okt] does not ask) and not Bool / BV: core/Sem.v compares array values
+   at EVERY key, also at keys outside the index sort, where an array value shows its default;
+   walk_equals (rightly) makes two array values over a finite index sort equal when the
+   assigned indices cover the sort, whatever the defaults - true in SMT-LIB, false in Sem.v as
+   it stands.  The indices are constants of Int / String
    sort, strictly increasing in the model's order of index constants (Ctors.const_key; the
    implementation keeps a dict, the model and the harness keep this order), and no assigned
    value is syntactically the default (Array() drops such pairs); the element sort is not Real
@@ -78,7 +82,7 @@ Fixpoint keys_sorted (l : list (term * term)) : bool :=
   | [] => true
   | kv :: r => forallb (fun kv' => klt (fst kv) (fst kv')) r && keys_sorted r
   end.
-Definition idx_ok (it : ty) : bool := match it with TArr _ _ | TReal => false | _ => inhb it end.
+Definition idx_ok (it : ty) : bool := match it with TArr _ _ | TReal | TBool | TBV _ => false | _ => inhb it end.
 Definition elt_ok (t : option ty) : bool := match t with Some TReal | None => false | Some _ => true end.
 Definition arr_keys_ok (it : ty) (d : term) (rest : list term) : bool :=
   idx_ok it && elt_ok (tc d) && Nat.even (List.length rest) &&
